@@ -2,6 +2,7 @@
    M = the node-vector trie of Model.v (what zipora calls Patricia storage), S = a duplicate-free list of keys. *)
 From ZV.Common Require Import Base Run.
 From ZV.C05 Require Import Model Spec ProofsBase ProofsInsert ProofsRemove ProofsRefine ProofsKeys ProofsLouds ProofsSpec ProofsClone.
+From ZV.C05 Require Import SpecNoRemove ModelFsa ModelDa ModelCs ModelAll ProofsFsa ProofsDaArr ProofsDaInv ProofsDaReloc ProofsDaReloc2 ProofsDaInsert ProofsDaKeys ProofsCs.
 Open Scope N_scope.
 
 (* ptrie_refines_set: for EVERY history of insert / remove / contains / len / accepts / longest_prefix calls
@@ -183,3 +184,213 @@ Theorem ptrie_refines_set_with_clone : forall ops, Forall op_ok ops -> p_run_c t
 Proof. exact ptrie_refines_set_with_clone_proof. Qed.
 Check ptrie_refines_set_with_clone : forall ops, Forall op_ok ops -> p_run_c true p_empty ops = s_run [] ops.
 Print Assumptions ptrie_refines_set_with_clone.
+
+(* ------------------------------------------------------------------------------------------------------------------
+   Extension: the default methods of src/fsa/traits.rs over any automaton, the double-array storage, the hash-map
+   (compressed-sparse) storage. *)
+
+(* fsa_longest_prefix_correct: the default accepts / longest_prefix of trait FiniteStateAutomaton (and Trie::lookup),
+   as written, over ANY state type, transition function, is_final and root whose language (the keys k with
+   lookup(k).is_some()) is the set S - in particular root final <-> the empty key is a member: accepts is membership
+   and longest_prefix(q) is s_longest_prefix S q, i.e. (s_longest_prefix_spec) the length of the longest member that
+   is a prefix of q, None if there is none *)
+Theorem fsa_longest_prefix_correct : forall (St : Type) (trans : St -> N -> option St) (isfin : St -> bool) (root : St) (S : keyset),
+  (forall k, g_lookup trans isfin root k = mem k S) ->
+  forall q, g_accepts trans isfin root q = mem q S /\ g_longest_prefix trans isfin root q = s_longest_prefix S q.
+Proof. exact fsa_longest_prefix_correct_proof. Qed.
+Check fsa_longest_prefix_correct : forall (St : Type) (trans : St -> N -> option St) (isfin : St -> bool) (root : St) (S : keyset),
+  (forall k, g_lookup trans isfin root k = mem k S) ->
+  forall q, g_accepts trans isfin root q = mem q S /\ g_longest_prefix trans isfin root q = s_longest_prefix S q.
+Print Assumptions fsa_longest_prefix_correct.
+
+(* the FSA view of the node-vector model (fsa_accepts / fsa_longest_prefix of Model.v) is that generic walk *)
+Theorem fsa_generic_is_patricia : forall ns q,
+  fsa_accepts ns q = g_accepts (child ns) (fin ns) 0%nat q /\
+  fsa_longest_prefix ns q = g_longest_prefix (child ns) (fin ns) 0%nat q.
+Proof. exact fsa_generic_is_patricia_proof. Qed.
+Check fsa_generic_is_patricia : forall ns q,
+  fsa_accepts ns q = g_accepts (child ns) (fin ns) 0%nat q /\
+  fsa_longest_prefix ns q = g_longest_prefix (child ns) (fin ns) 0%nat q.
+Print Assumptions fsa_generic_is_patricia.
+
+(* ------------------------------------------------------------------ double-array storage (ModelDa.v) *)
+
+(* da_refines_set: for EVERY history of insert / contains / len / accepts / longest_prefix calls over byte-string keys in
+   which no insert returns Err (relocate_state would need a base beyond the 31-bit base field: da_noerr_or_huge),
+   the ZiporaTrie over the double array started empty - base/check arrays, terminal bit, growth,
+   find_free_base, collision handling and relocation included - answers exactly like the set of keys inserted.
+   remove is `_ => Ok(false)` for this storage (da_remove_refuted); keys / keys_with_prefix: da_keys_enumerates *)
+Theorem da_refines_set : forall ops, Forall da_op_ok ops -> d_noerr d_empty ops = true -> d_run d_empty ops = s_run [] ops.
+Proof. exact da_refines_set_proof. Qed.
+Check da_refines_set : forall ops, Forall da_op_ok ops -> d_noerr d_empty ops = true -> d_run d_empty ops = s_run [] ops.
+Print Assumptions da_refines_set.
+
+(* ... and the state reached satisfies the shape invariant (a ghost address per used slot, every used slot inside its
+   parent's 256-window, arrays below 2^22 slots), answers lookups like the set, and counts its keys *)
+Theorem da_reachable_related : forall ops, Forall da_op_ok ops -> d_noerr d_empty ops = true -> DRel (d_exec d_empty ops) (s_exec [] ops).
+Proof. exact da_reachable_related_proof. Qed.
+Check da_reachable_related : forall ops, Forall da_op_ok ops -> d_noerr d_empty ops = true -> DRel (d_exec d_empty ops) (s_exec [] ops).
+Print Assumptions da_reachable_related.
+
+(* insert_double_array adds exactly the key *)
+Theorem da_insert_adds_exactly : forall d addr key d' e, bytes_ok key -> DInv d addr -> da_insert d key = (d', Some e) ->
+  (exists addr', DInv d' addr') /\ forall k, dlookup d' k = (dlookup d k || eqb_ln k key)%bool.
+Proof. exact da_insert_lookup. Qed.
+Check da_insert_adds_exactly : forall d addr key d' e, bytes_ok key -> DInv d addr -> da_insert d key = (d', Some e) ->
+  (exists addr', DInv d' addr') /\ forall k, dlookup d' k = (dlookup d k || eqb_ln k key)%bool.
+Print Assumptions da_insert_adds_exactly.
+
+(* da_relocation_preserves_keys: relocate_state (collect the children, search a base, free the old slots, move every
+   child with its base and terminal bit, re-parent the grandchildren, set the new base) keeps the invariant and the
+   language - every stored key with its terminal flag, none added -, gives the state the returned base and leaves the
+   slot of the new symbol free and inside the arrays *)
+Theorem da_relocation_preserves_keys : forall d addr st ns d' nb,
+  DInv d addr -> used d st -> bv d st <> NIL_STATE -> ns < 256 -> cget d (bv d st + ns) <> st ->
+  relocate_state d st ns = (d', Some nb) ->
+  exists addr', DInv d' addr' /\ used d' st /\ addr' st = addr st /\ bv d' st = nb /\
+     is_free_word (cget d' (nb + ns)) = true /\ nb + ns < blen d' /\
+     (forall k, View d' addr' k <-> View d addr k) /\ blen d <= blen d'.
+Proof. exact relocate_spec. Qed.
+Check da_relocation_preserves_keys : forall d addr st ns d' nb,
+  DInv d addr -> used d st -> bv d st <> NIL_STATE -> ns < 256 -> cget d (bv d st + ns) <> st ->
+  relocate_state d st ns = (d', Some nb) ->
+  exists addr', DInv d' addr' /\ used d' st /\ addr' st = addr st /\ bv d' st = nb /\
+     is_free_word (cget d' (nb + ns)) = true /\ nb + ns < blen d' /\
+     (forall k, View d' addr' k <-> View d addr k) /\ blen d <= blen d'.
+Print Assumptions da_relocation_preserves_keys.
+
+(* the language of a well-formed double array is the set of ghost addresses of its used terminal slots *)
+Theorem da_lookup_is_view : forall d addr k, DInv d addr -> (dlookup d k = true <-> View d addr k).
+Proof. exact dlookup_view. Qed.
+Check da_lookup_is_view : forall d addr k, DInv d addr -> (dlookup d k = true <-> View d addr k).
+Print Assumptions da_lookup_is_view.
+
+(* contains_double_array is the generic Trie::lookup over transition / is_final *)
+Theorem da_contains_is_lookup : forall d addr k, DInv d addr -> da_contains d k = dlookup d k.
+Proof. exact da_contains_lookup. Qed.
+Check da_contains_is_lookup : forall d addr k, DInv d addr -> da_contains d k = dlookup d k.
+Print Assumptions da_contains_is_lookup.
+
+(* recorded finding, as a refutation on the faithful model: remove is a no-op for the double array *)
+Theorem da_remove_refuted : exists ops, Forall op_ok ops /\ d_run d_empty ops <> s_run [] ops.
+Proof. exact da_remove_refuted_proof. Qed.
+Check da_remove_refuted : exists ops, Forall op_ok ops /\ d_run d_empty ops <> s_run [] ops.
+Print Assumptions da_remove_refuted.
+
+(* keys() (collect_keys_double_array_recursive from the root, fuel = number of slots + 1) lists exactly the members,
+   keys_with_prefix(p) exactly the members that start with p, each once *)
+Theorem da_keys_enumerates : forall st S k, DRel st S -> (In k (da_keys (d_da st)) <-> In k S).
+Proof. exact da_keys_enumerates_proof. Qed.
+Check da_keys_enumerates : forall st S k, DRel st S -> (In k (da_keys (d_da st)) <-> In k S).
+Print Assumptions da_keys_enumerates.
+
+Theorem da_prefix_query_exact : forall st S p k, DRel st S -> (In k (da_prefix (d_da st) p) <-> In k S /\ exists k2, k = p ++ k2).
+Proof. exact da_prefix_query_exact_proof. Qed.
+Check da_prefix_query_exact : forall st S p k, DRel st S -> (In k (da_prefix (d_da st) p) <-> In k S /\ exists k2, k = p ++ k2).
+Print Assumptions da_prefix_query_exact.
+
+Theorem da_keys_no_duplicates : forall st S p, DRel st S -> NoDup (da_keys (d_da st)) /\ NoDup (da_prefix (d_da st) p).
+Proof. exact da_keys_no_duplicates_proof. Qed.
+Check da_keys_no_duplicates : forall st S p, DRel st S -> NoDup (da_keys (d_da st)) /\ NoDup (da_prefix (d_da st) p).
+Print Assumptions da_keys_no_duplicates.
+
+(* impl Clone (re-insert keys() into a fresh double array, copy the statistics), if none of the re-insertions errs *)
+Theorem da_clone_preserves : forall st S, DRel st S -> d_clone_ok st = true -> DRel (d_clone st) S.
+Proof. exact da_clone_preserves_proof. Qed.
+Check da_clone_preserves : forall st S, DRel st S -> d_clone_ok st = true -> DRel (d_clone st) S.
+Print Assumptions da_clone_preserves.
+
+(* da_refines_set for histories that also contain clone steps (op code 8) *)
+Theorem da_refines_set_with_clone : forall ops, Forall da_op_ok_c ops -> d_noerr_c d_empty ops = true -> d_run d_empty ops = s_run [] ops.
+Proof. exact da_refines_set_with_clone_proof. Qed.
+Check da_refines_set_with_clone : forall ops, Forall da_op_ok_c ops -> d_noerr_c d_empty ops = true -> d_run d_empty ops = s_run [] ops.
+Print Assumptions da_refines_set_with_clone.
+
+(* ------------------------------------------------------------------ compressed-sparse storage as a trie over hash maps (ModelCs.v) *)
+
+(* cs_refines_set: for EVERY history of insert / contains / len / accepts / longest_prefix / clone calls over byte-string
+   keys, the ZiporaTrie over HashMap<StateId, SparseNode> started empty (root created on first insert, ids = max + 1,
+   child inserted before it is linked) answers exactly like the set of keys inserted; insert never takes its
+   `State not found` error branch.  remove is `_ => Ok(false)` (cs_remove_refuted) *)
+Theorem cs_refines_set : forall ops, Forall cs_op_ok ops -> cs_run c_empty ops = s_run [] ops.
+Proof. exact cs_refines_set_proof. Qed.
+Check cs_refines_set : forall ops, Forall cs_op_ok ops -> cs_run c_empty ops = s_run [] ops.
+Print Assumptions cs_refines_set.
+
+Theorem cs_reachable_related : forall ops, Forall cs_op_ok ops -> CRel (cs_exec c_empty ops) (s_exec [] ops).
+Proof. exact cs_reachable_related_proof. Qed.
+Check cs_reachable_related : forall ops, Forall cs_op_ok ops -> CRel (cs_exec c_empty ops) (s_exec [] ops).
+Print Assumptions cs_reachable_related.
+
+(* insert_compressed_sparse returns Ok and adds exactly the key *)
+Theorem cs_insert_adds_exactly : forall m key, bytes_ok key -> COK m ->
+  exists m' e, cs_insert m key = (m', Some e) /\ (exists addr', CInv m' addr') /\
+    forall k, clookup m' k = (clookup m k || eqb_ln k key)%bool.
+Proof. exact cs_insert_spec. Qed.
+Check cs_insert_adds_exactly : forall m key, bytes_ok key -> COK m ->
+  exists m' e, cs_insert m key = (m', Some e) /\ (exists addr', CInv m' addr') /\
+    forall k, clookup m' k = (clookup m k || eqb_ln k key)%bool.
+Print Assumptions cs_insert_adds_exactly.
+
+(* keys() / keys_with_prefix(p) (in whatever order the hash maps iterate; the observation is sorted) list exactly the
+   members (with prefix p), each once *)
+Theorem cs_keys_enumerates : forall st S k, CRel st S -> (In k (sort_keys (cs_keys (c_map st))) <-> In k S).
+Proof. exact cs_keys_enumerates_proof. Qed.
+Check cs_keys_enumerates : forall st S k, CRel st S -> (In k (sort_keys (cs_keys (c_map st))) <-> In k S).
+Print Assumptions cs_keys_enumerates.
+
+Theorem cs_prefix_query_exact : forall st S p k, CRel st S ->
+  (In k (sort_keys (cs_prefix (c_map st) p)) <-> In k S /\ exists k2, k = p ++ k2).
+Proof. exact cs_prefix_query_exact_proof. Qed.
+Check cs_prefix_query_exact : forall st S p k, CRel st S ->
+  (In k (sort_keys (cs_prefix (c_map st) p)) <-> In k S /\ exists k2, k = p ++ k2).
+Print Assumptions cs_prefix_query_exact.
+
+Theorem cs_keys_no_duplicates : forall st S p, CRel st S ->
+  NoDup (sort_keys (cs_keys (c_map st))) /\ NoDup (sort_keys (cs_prefix (c_map st) p)).
+Proof. exact cs_keys_no_duplicates_proof. Qed.
+Check cs_keys_no_duplicates : forall st S p, CRel st S ->
+  NoDup (sort_keys (cs_keys (c_map st))) /\ NoDup (sort_keys (cs_prefix (c_map st) p)).
+Print Assumptions cs_keys_no_duplicates.
+
+Theorem cs_clone_preserves : forall st S, CRel st S -> CRel (cs_clone st) S.
+Proof. exact cs_clone_preserves_proof. Qed.
+Check cs_clone_preserves : forall st S, CRel st S -> CRel (cs_clone st) S.
+Print Assumptions cs_clone_preserves.
+
+Theorem cs_remove_refuted : exists ops, Forall op_ok ops /\ cs_run c_empty ops <> s_run [] ops.
+Proof. exact cs_remove_refuted_proof. Qed.
+Check cs_remove_refuted : exists ops, Forall op_ok ops /\ cs_run c_empty ops <> s_run [] ops.
+Print Assumptions cs_remove_refuted.
+
+(* ------------------------------------------------------------------ histories WITH remove calls, as these two storages implement them
+   (ZiporaTrie::remove is `_ => Ok(false)`): every history - all eight op codes except the two enumerations, clone included -
+   behaves like the set in which remove changes nothing and answers false (SpecNoRemove.s_run_nr).  The distance to the
+   property is exactly the recorded finding (da_remove_refuted / cs_remove_refuted). *)
+Theorem da_refines_set_noop_remove : forall ops, Forall op_ok ops -> d_noerr_c d_empty ops = true -> d_run d_empty ops = s_run_nr [] ops.
+Proof. exact da_refines_set_noop_remove_proof. Qed.
+Check da_refines_set_noop_remove : forall ops, Forall op_ok ops -> d_noerr_c d_empty ops = true -> d_run d_empty ops = s_run_nr [] ops.
+Print Assumptions da_refines_set_noop_remove.
+
+Theorem cs_refines_set_noop_remove : forall ops, Forall op_ok ops -> cs_run c_empty ops = s_run_nr [] ops.
+Proof. exact cs_refines_set_noop_remove_proof. Qed.
+Check cs_refines_set_noop_remove : forall ops, Forall op_ok ops -> cs_run c_empty ops = s_run_nr [] ops.
+Print Assumptions cs_refines_set_noop_remove.
+
+(* ------------------------------------------------------------------ when can an insert into the double array report an error?
+   Only when relocate_state would need a base beyond MAX_BASE = 0x7FFF_FFFE - 256 (the 31-bit base field), and then the
+   arrays are longer than HUGE = MAX_BASE - 257 = 2 147 483 133 slots: the capacity of the format.  So the hypothesis
+   d_noerr of da_refines_set can only fail for a history one of whose prefixes has already grown an array to that size.
+   (Before the fix: commit "relocate_state falls back to the end of the arrays" the search gave up after 10001 probes,
+   i.e. from 2 570 000 slots on - reached by a probe with 468 399 random 8-byte keys.) *)
+Theorem da_insert_err_only_when_huge : forall d addr key d', bytes_ok key -> DInv d addr -> da_insert d key = (d', None) -> HUGE < blen d'.
+Proof. exact da_insert_err. Qed.
+Check da_insert_err_only_when_huge : forall d addr key d', bytes_ok key -> DInv d addr -> da_insert d key = (d', None) -> HUGE < blen d'.
+Print Assumptions da_insert_err_only_when_huge.
+
+Theorem da_noerr_or_huge : forall ops, Forall da_op_ok ops ->
+  d_noerr d_empty ops = true \/ exists n, HUGE < blen (d_da (d_exec d_empty (firstn n ops))).
+Proof. exact da_noerr_or_huge_proof. Qed.
+Check da_noerr_or_huge : forall ops, Forall da_op_ok ops ->
+  d_noerr d_empty ops = true \/ exists n, HUGE < blen (d_da (d_exec d_empty (firstn n ops))).
+Print Assumptions da_noerr_or_huge.
